@@ -49,27 +49,60 @@ func recvObj(info *types.Info, fd *ast.FuncDecl) types.Object {
 	return info.Defs[fd.Recv.List[0].Names[0]]
 }
 
-// indexKeyOf returns the outermost map index expression of an lvalue like idx.G[k] or idx.G[k][j].
-func firstIndexOf(e ast.Expr) ast.Expr {
-	var idx ast.Expr
+// idxBind says what a variable of a function on the index-update path stands for.
+type idxBind struct {
+	Kind string // "recv" (the index), "recvField" (one of its fields), "fi" (the file index), "fiField", "path"
+	Name string // field name for recvField / fiField
+}
+
+// collectIdxOps walks a method of the index type and records how it touches the receiver's fields.
+// Calls to functions declared in the module are followed with their parameters bound to what the caller
+// passes (the index, one of its fields, the file index, one of its fields, the path), so that moving an
+// update loop into a helper does not change the recorded operations.
+func collectIdxOps(p *Prog, fd *ast.FuncDecl, fiParam types.Object, pathParam types.Object, depth int) []idxOp {
+	info := p.InfoFor(fd)
+	env := map[types.Object]idxBind{}
+	if r := recvObj(info, fd); r != nil {
+		env[r] = idxBind{Kind: "recv"}
+	}
+	if fiParam != nil {
+		env[fiParam] = idxBind{Kind: "fi"}
+	}
+	if pathParam != nil {
+		env[pathParam] = idxBind{Kind: "path"}
+	}
+	return collectIdxOpsEnv(p, fd, env, "", depth)
+}
+
+// boundField resolves e (rooted at a bound variable) to the field of the index / of the file index it denotes.
+func boundField(info *types.Info, env map[types.Object]idxBind, e ast.Expr, want string) (string, bool) {
 	e = ast.Unparen(e)
 	for {
 		switch x := e.(type) {
-		case *ast.IndexExpr:
-			idx = x.Index
-			e = ast.Unparen(x.X)
 		case *ast.SelectorExpr:
-			return idx
+			if id, ok := ast.Unparen(x.X).(*ast.Ident); ok {
+				if b, ok := env[info.Uses[id]]; ok && b.Kind == want {
+					return x.Sel.Name, true
+				}
+			}
+			e = ast.Unparen(x.X)
+		case *ast.IndexExpr:
+			e = ast.Unparen(x.X)
+		case *ast.StarExpr:
+			e = ast.Unparen(x.X)
+		case *ast.Ident:
+			if b, ok := env[info.Uses[x]]; ok && b.Kind == want+"Field" {
+				return b.Name, true
+			}
+			return "", false
 		default:
-			return idx
+			return "", false
 		}
 	}
 }
 
-// collectIdxOps walks a method of the index type and records how it touches the receiver's fields.
-func collectIdxOps(p *Prog, fd *ast.FuncDecl, fiParam types.Object, pathParam types.Object, depth int) []idxOp {
+func collectIdxOpsEnv(p *Prog, fd *ast.FuncDecl, env map[types.Object]idxBind, src0 string, depth int) []idxOp {
 	info := p.InfoFor(fd)
-	recv := recvObj(info, fd)
 	var ops []idxOp
 	var visit func(n ast.Node, src string)
 	record := func(src, dst, op string, pos token.Pos, n ast.Node) {
@@ -77,31 +110,33 @@ func collectIdxOps(p *Prog, fd *ast.FuncDecl, fiParam types.Object, pathParam ty
 	}
 	isPath := func(e ast.Expr) bool {
 		id, ok := ast.Unparen(e).(*ast.Ident)
-		return ok && pathParam != nil && info.Uses[id] == pathParam
+		return ok && env[info.Uses[id]].Kind == "path"
 	}
+	recvField := func(e ast.Expr) (string, bool) { return boundField(info, env, e, "recv") }
 	visit = func(n ast.Node, src string) {
 		ast.Inspect(n, func(x ast.Node) bool {
 			switch s := x.(type) {
 			case *ast.RangeStmt:
-				// range fi.F
-				if se, ok := ast.Unparen(s.X).(*ast.SelectorExpr); ok {
-					if id, ok := ast.Unparen(se.X).(*ast.Ident); ok && fiParam != nil && info.Uses[id] == fiParam {
-						visit(s.Body, se.Sel.Name)
-						return false
-					}
+				// range fi.F, or range over a parameter bound to fi.F; nested ranges over the loop's own values keep the source
+				if f, ok := boundField(info, env, s.X, "fi"); ok {
+					visit(s.Body, f)
+					return false
 				}
 				return true
 			case *ast.AssignStmt:
 				for i, lhs := range s.Lhs {
-					dst, ok := rootField(info, lhs, recv)
+					dst, ok := recvField(lhs)
 					if !ok {
 						continue
+					}
+					if _, bare := ast.Unparen(lhs).(*ast.Ident); bare {
+						continue // re-binding a local parameter, not a store into the index
 					}
 					var rhs ast.Expr
 					if i < len(s.Rhs) {
 						rhs = s.Rhs[i]
 					}
-					key := firstIndexOf(lhs)
+					key := firstIndexAny(lhs)
 					switch {
 					case s.Tok == token.ADD_ASSIGN:
 						record(src, dst, "inc", s.Pos(), s)
@@ -119,7 +154,7 @@ func collectIdxOps(p *Prog, fd *ast.FuncDecl, fiParam types.Object, pathParam ty
 								continue
 							}
 							q := qualName(calleeOf(info, call))
-							if strings.Contains(strings.ToLower(q), "filter") && key != nil {
+							if (strings.Contains(strings.ToLower(q), "filter") || q == "slices.DeleteFunc") && key != nil {
 								record(src, dst, "filter-key", s.Pos(), s)
 								continue
 							}
@@ -134,7 +169,7 @@ func collectIdxOps(p *Prog, fd *ast.FuncDecl, fiParam types.Object, pathParam ty
 					}
 				}
 			case *ast.IncDecStmt:
-				if dst, ok := rootField(info, s.X, recv); ok {
+				if dst, ok := recvField(s.X); ok {
 					if s.Tok == token.INC {
 						record(src, dst, "inc", s.Pos(), s)
 					} else {
@@ -143,8 +178,7 @@ func collectIdxOps(p *Prog, fd *ast.FuncDecl, fiParam types.Object, pathParam ty
 				}
 			case *ast.CallExpr:
 				if id, ok := ast.Unparen(s.Fun).(*ast.Ident); ok && id.Name == "delete" && len(s.Args) == 2 {
-					if dst, ok := rootField(info, s.Args[0], recv); ok {
-						// `delete` right after an emptiness test of the same slot is clean-up of an inverse op
+					if dst, ok := recvField(s.Args[0]); ok {
 						if isPath(s.Args[1]) {
 							record(src, dst, "del-path", s.Pos(), s)
 						} else {
@@ -153,74 +187,83 @@ func collectIdxOps(p *Prog, fd *ast.FuncDecl, fiParam types.Object, pathParam ty
 					}
 					return true
 				}
-				// helper methods on the same receiver: inline their ops (bounded depth)
-				if o, ok := calleeOf(info, s).(*types.Func); ok && depth < 3 {
-					if decl := p.declOf[o]; decl != nil && decl.Recv != nil && recvTypeName(decl) == recvTypeName(fd) {
-						if se, ok := ast.Unparen(s.Fun).(*ast.SelectorExpr); ok {
-							if id, ok := ast.Unparen(se.X).(*ast.Ident); ok && info.Uses[id] == recv {
-								sub := collectIdxOps(p, decl, nil, nil, depth+1)
-								// ops of the helper on its map PARAMETERS are attributed to the index field passed
-								sub = append(sub, helperParamOps(p, decl, s, info, recv)...)
-								for _, so := range sub {
-									so.Src = src
-									so.Pos = s.Pos()
-									so.Text = exprStr(p.Fset, s) + " -> " + so.Text
-									ops = append(ops, so)
-								}
+				// functions of the module: follow with parameters bound to what is passed
+				o, ok := calleeOf(info, s).(*types.Func)
+				if !ok || depth >= 4 {
+					return true
+				}
+				decl := p.declOf[o]
+				if decl == nil || decl.Body == nil {
+					return true
+				}
+				dinfo := p.InfoFor(decl)
+				sub := map[types.Object]idxBind{}
+				touches := false
+				if se, ok := ast.Unparen(s.Fun).(*ast.SelectorExpr); ok && decl.Recv != nil {
+					if id, ok := ast.Unparen(se.X).(*ast.Ident); ok {
+						if b, ok := env[info.Uses[id]]; ok {
+							if r := recvObj(dinfo, decl); r != nil {
+								sub[r] = b
+								touches = touches || b.Kind == "recv" || b.Kind == "recvField"
 							}
 						}
 					}
 				}
-			}
-			return true
-		})
-	}
-	visit(fd.Body, "")
-	return ops
-}
-
-// helperParamOps: a helper like decrementBy(counts map, key, amount) mutates its map parameter;
-// attribute that to the receiver field passed at the call site.
-func helperParamOps(p *Prog, helper *ast.FuncDecl, call *ast.CallExpr, callerInfo *types.Info, callerRecv types.Object) []idxOp {
-	hinfo := p.InfoFor(helper)
-	var ops []idxOp
-	if helper.Type.Params == nil {
-		return nil
-	}
-	var params []types.Object
-	for _, f := range helper.Type.Params.List {
-		for _, n := range f.Names {
-			params = append(params, hinfo.Defs[n])
-		}
-	}
-	for pi, po := range params {
-		if pi >= len(call.Args) {
-			break
-		}
-		dst, ok := rootField(callerInfo, call.Args[pi], callerRecv)
-		if !ok {
-			continue
-		}
-		ast.Inspect(helper.Body, func(x ast.Node) bool {
-			switch s := x.(type) {
-			case *ast.AssignStmt:
-				for _, lhs := range s.Lhs {
-					if r, _, _ := lvalueRoot(hinfo, lhs); r == po {
-						switch s.Tok {
-						case token.SUB_ASSIGN:
-							ops = append(ops, idxOp{Dst: dst, Op: "dec", Text: exprStr(p.Fset, s)})
-						case token.ADD_ASSIGN:
-							ops = append(ops, idxOp{Dst: dst, Op: "inc", Text: exprStr(p.Fset, s)})
-						case token.ASSIGN:
-							ops = append(ops, idxOp{Dst: dst, Op: "overwrite-key", Text: exprStr(p.Fset, s)})
+				i := 0
+				if decl.Type.Params != nil {
+					for _, fl := range decl.Type.Params.List {
+						for _, nm := range fl.Names {
+							if i < len(s.Args) {
+								arg := ast.Unparen(s.Args[i])
+								if id, ok := arg.(*ast.Ident); ok {
+									if b, ok := env[info.Uses[id]]; ok {
+										sub[dinfo.Defs[nm]] = b
+										touches = touches || b.Kind == "recv" || b.Kind == "recvField"
+									}
+								} else if f, ok := boundField(info, env, arg, "recv"); ok {
+									if _, isBasic := dinfo.Defs[nm].Type().Underlying().(*types.Basic); !isBasic {
+										sub[dinfo.Defs[nm]] = idxBind{Kind: "recvField", Name: f}
+										touches = true
+									}
+								} else if f, ok := boundField(info, env, arg, "fi"); ok {
+									sub[dinfo.Defs[nm]] = idxBind{Kind: "fiField", Name: f}
+								}
+							}
+							i++
 						}
 					}
+				}
+				if !touches {
+					return true
+				}
+				for _, so := range collectIdxOpsEnv(p, decl, sub, src, depth+1) {
+					if so.Src == "" {
+						so.Src = src
+					}
+					so.Pos = s.Pos()
+					so.Text = exprStr(p.Fset, s) + " -> " + so.Text
+					ops = append(ops, so)
 				}
 			}
 			return true
 		})
 	}
+	visit(fd.Body, src0)
 	return ops
+}
+
+// firstIndexAny returns the outermost index expression of an lvalue like idx.G[k], idx.G[k][j] or counts[k].
+func firstIndexAny(e ast.Expr) ast.Expr {
+	var idx ast.Expr
+	e = ast.Unparen(e)
+	for {
+		x, ok := e.(*ast.IndexExpr)
+		if !ok {
+			return idx
+		}
+		idx = x.Index
+		e = ast.Unparen(x.X)
+	}
 }
 
 func ruleT1T2(c *Ctx) {
@@ -830,13 +873,18 @@ func elementwiseListGuard(p *Prog, info *types.Info, cond ast.Expr) bool {
 	if !ok || len(call.Args) != 2 {
 		return false
 	}
-	o := calleeOf(info, call)
+	return elementwiseEqFunc(p, calleeOf(info, call), 0)
+}
+
+// elementwiseEqFunc: o is slices.Equal / reflect.DeepEqual, or a module function over two slices that
+// compares a[i] with b[i], or one that hands both parameters on to such a function.
+func elementwiseEqFunc(p *Prog, o types.Object, depth int) bool {
 	switch qualName(o) {
 	case "slices.Equal", "reflect.DeepEqual":
 		return true
 	}
 	fn, ok := o.(*types.Func)
-	if !ok {
+	if !ok || depth > 3 {
 		return false
 	}
 	decl := p.declOf[fn]
@@ -853,18 +901,32 @@ func elementwiseListGuard(p *Prog, info *types.Info, cond ast.Expr) bool {
 	if len(ps) != 2 {
 		return false
 	}
+	isPair := func(x, y ast.Expr) bool {
+		a, b := dinfo.Uses[identOf(x)], dinfo.Uses[identOf(y)]
+		return a != nil && b != nil && ((a == ps[0] && b == ps[1]) || (a == ps[1] && b == ps[0]))
+	}
 	found := false
 	ast.Inspect(decl.Body, func(x ast.Node) bool {
-		be, ok := x.(*ast.BinaryExpr)
-		if !ok || (be.Op != token.NEQ && be.Op != token.EQL) {
-			return true
-		}
-		ix, ok1 := ast.Unparen(be.X).(*ast.IndexExpr)
-		iy, ok2 := ast.Unparen(be.Y).(*ast.IndexExpr)
-		if ok1 && ok2 {
-			a, b := dinfo.Uses[identOf(ix.X)], dinfo.Uses[identOf(iy.X)]
-			if (a == ps[0] && b == ps[1]) || (a == ps[1] && b == ps[0]) {
+		switch be := x.(type) {
+		case *ast.BinaryExpr:
+			if be.Op != token.NEQ && be.Op != token.EQL {
+				return true
+			}
+			ix, ok1 := ast.Unparen(be.X).(*ast.IndexExpr)
+			iy, ok2 := ast.Unparen(be.Y).(*ast.IndexExpr)
+			if ok1 && ok2 && isPair(ix.X, iy.X) {
 				found = true
+			}
+		case *ast.ReturnStmt:
+			// wrapper: `return eq(a, b)`
+			if len(be.Results) == 1 {
+				if call, ok := ast.Unparen(be.Results[0]).(*ast.CallExpr); ok && len(call.Args) == 2 {
+					_, i1 := ast.Unparen(call.Args[0]).(*ast.Ident)
+					_, i2 := ast.Unparen(call.Args[1]).(*ast.Ident)
+					if i1 && i2 && isPair(call.Args[0], call.Args[1]) && elementwiseEqFunc(p, calleeOf(dinfo, call), depth+1) {
+						found = true
+					}
+				}
 			}
 		}
 		return true
